@@ -303,6 +303,10 @@ func NewHTTPTargeter(src io.Reader, body []byte, hdr http.Header) Targeter {
 		}
 		tgt.URL = tokens[1]
 		line = strings.TrimSpace(sc.Peek())
+		for strings.HasPrefix(line, "#") {
+			// Comments are ignored: decide on the line that follows them.
+			line = strings.TrimSpace(sc.Peek())
+		}
 		if line == "" || startsWithHTTPMethod(line) {
 			return nil
 		}
